@@ -110,7 +110,12 @@ def search(ctx):
         if i % 4 == 0:
             b[rng.integers(3)] = rng.choice([-0.05, 0.05])     # a clearly non-zero component
         params = {"sim/enable_noise": False, "sim/mag_incl": float(rng.uniform(-1.0, 1.0)), "sim/mag_decl": 0.0}
-        if big and i % 6 == 5:
+        # sensor / logging rate settings: magnetometer faster than the IMU, slower IMU and logger
+        if i % 4 == 1:
+            params["sim/dt_mag"] = 1.0 / 400
+        if i % 4 == 2:
+            params["sim/dt_mag"] = 1.0 / 200
+        if i % 8 == 7:
             params["sim/dt_imu"] = 1.0 / 100; params["logger/dt"] = 1.0 / 100
         runs.append({"tf": tf, "estimators": ["mrp"], "initialize": bool(i % 2 == 0), "x0": [float(v) for v in np.concatenate([r, b])], "params": params})
     ctxmp = mp.get_context("fork")
